@@ -302,10 +302,11 @@ def run_check(prop, tier):
             notes += wr["notes"]
             coverage["websocket_odd_frames"] = wr["coverage"]
             coverage["traces_validated_against_impl"] += wr["coverage"]["rows"]
-        if prop == "C11":
-            # hub level: the end of a connection object and the registry / notifications (HubApi.tla, MonHub.tla)
+        if prop in ("C01", "C11"):
+            # hub level: C11 - the end of a connection object and the registry / notifications; C01 - the hub holds a service
+            # trusted (and answers its connections 'paired') only on the user's word (HubApi.tla, MonHub.tla)
             import check_hub
-            hr = check_hub.collect("C11", tier)
+            hr = check_hub.collect(prop, tier)
             violations += hr["violations"]
             known_hits.update(hr["known_hits"])
             notes += hr["notes"]
@@ -313,8 +314,11 @@ def run_check(prop, tier):
             coverage["states"] += hr["coverage"]["states"]
             coverage["transitions"] += hr["coverage"]["transitions"]
             coverage["traces_validated_against_impl"] += hr["coverage"]["traces_validated_against_impl"]
+        if prop in ("C01", "C03", "C04", "C06", "C09", "C11"):
+            # two real hubs: the history of every ShipConnection they create, recorded under the real goroutine schedule,
+            # is judged with the same SmeProps operators; hub-level trust / SHIP id / pair formulas (Hub2.tla, MonHub2.tla)
             import check_hub2
-            h2 = check_hub2.collect("C11", tier)
+            h2 = check_hub2.collect(prop, tier)
             violations += h2["violations"]
             known_hits.update(h2["known_hits"])
             notes += h2["notes"]
